@@ -1,0 +1,73 @@
+//go:build verif
+
+package conn
+
+// Contracts checked by /verif (contract-based deductive verification).
+// This file is comment-only; it is compiled only with -tags=verif.
+
+// ---- C52: record counter -----------------------------------------------------------
+//
+// Inc adds one to the little-endian number held in value[0:overflowLen]: a
+// (possibly empty) run of 0xFF bytes becomes 0x00 and the next byte grows by
+// one; bytes above are untouched. The counter becomes invalid exactly when all
+// overflowLen low bytes were 0xFF (the value wrapped), so a nonce is never
+// reused without `invalid` being set, and Value() then fails.
+
+//@ func (*Counter).Inc
+//@   prop C52
+//@   nopanic
+//@   modifies c.value, c.invalid
+//@   requires c != nil && 0 <= c.overflowLen && c.overflowLen <= counterLen
+//@   loop 1 invariant 0 <= i && i <= c.overflowLen && !c.invalid && !old(c.invalid)
+//@   loop 1 invariant forall(func(j int) bool { return implies(0 <= j && j < i, c.value[j] == 0 && old(c.value[j]) == 255) })
+//@   loop 1 invariant forall(func(j int) bool { return implies(i <= j && j < counterLen, c.value[j] == old(c.value[j])) })
+//@   loop 1 decreases Z(c.overflowLen) - Z(i)
+//@   ensures implies(old(c.invalid), c.invalid && forall(func(j int) bool { return implies(0 <= j && j < counterLen, c.value[j] == old(c.value[j])) }))
+//@   ensures iff(c.invalid, old(c.invalid) || forall(func(j int) bool { return implies(0 <= j && j < c.overflowLen, old(c.value[j]) == 255) }))
+//@   ensures implies(!old(c.invalid), exists(func(k int) bool { return 0 <= k && k <= c.overflowLen &&
+//@     forall(func(j int) bool { return implies(0 <= j && j < k, old(c.value[j]) == 255 && c.value[j] == 0) }) &&
+//@     implies(k < c.overflowLen, old(c.value[k]) != 255 && c.value[k] == old(c.value[k]) + 1) &&
+//@     forall(func(j int) bool { return implies(k < j && j < counterLen, c.value[j] == old(c.value[j])) }) }))
+
+//@ func (*Counter).Value
+//@   prop C52
+//@   nopanic
+//@   requires c != nil && errInvalidCounter != nil
+//@   ensures iff(result1 != nil, c.invalid)
+//@   ensures implies(result1 == nil, len(result0) == counterLen)
+
+// ---- C52: framing ---------------------------------------------------------------------
+
+//@ spec func le32(b []byte) Z {
+//@   return Z(b[0]) + 256*Z(b[1]) + 65536*Z(b[2]) + 16777216*Z(b[3])
+//@ }
+
+//@ func parseMessageLength
+//@   prop C52
+//@   nopanic
+//@   ensures result1 == (len(b) >= 4)
+//@   ensures implies(result1, Z(result0) == le32(b))
+//@   ensures implies(!result1, result0 == 0)
+
+// ParseFramedMsg never panics for any buffer and any limit up to 2^32-5; a
+// declared length above the limit is an error; an incomplete frame returns the
+// buffer untouched; a complete frame is split exactly into the 4+length framed
+// bytes and the rest.
+//@ func ParseFramedMsg
+//@   prop C52
+//@   nopanic
+//@   requires maxLen <= 4294967291
+//@   ensures implies(len(b) < 4, result2 == nil && len(result0) == 0 && sameslice(result1, b))
+//@   ensures implies(len(b) >= 4 && le32(b) > Z(maxLen), result2 != nil)
+//@   ensures implies(len(b) >= 4 && le32(b) <= Z(maxLen) && Z(len(b)) < le32(b) + 4, result2 == nil && len(result0) == 0 && sameslice(result1, b))
+//@   ensures implies(len(b) >= 4 && le32(b) <= Z(maxLen) && Z(len(b)) >= le32(b) + 4, result2 == nil && Z(len(result0)) == le32(b) + 4 && sameslice(result0, b[:len(result0)]) && sameslice(result1, b[len(result0):]))
+
+// SliceForAppend: head has len(in)+n bytes and starts with the bytes of in;
+// tail is the n-byte suffix of head.
+//@ func SliceForAppend
+//@   prop C52
+//@   nopanic
+//@   requires n >= 0 && Z(len(in)) + Z(n) <= 9223372036854775807
+//@   ensures Z(len(head)) == Z(len(in)) + Z(n) && len(tail) == n
+//@   ensures sameslice(tail, head[len(in):])
+//@   ensures forall(func(j int) bool { return implies(0 <= j && j < len(in), head[j] == old(in[j])) })
